@@ -535,6 +535,9 @@ def compile_correspondence(P, rng, ncases, nbundled=0):
 def _chunk(args):
     seed, n = args
     P = lib.import_repo()
+    if seed % 2 == 1:
+        import pollute
+        pollute.restate_core(P)     # the default namespace restates core rules in lower case (language-preserving)
     rng = random.Random(seed)
     evals = 0
     distinct = set()
